@@ -63,6 +63,8 @@ def units(ctx):
         yield ("triples", i)
     yield from hist.hist_units()
     yield ("long", 0)
+    for k in range(len(lib.LADDER)):
+        yield ("scale", k)
     if ctx["tier"] != "quick":
         for t1 in range(0, 31):
             yield ("ticks", t1)
@@ -89,6 +91,19 @@ def gen_cases(unit, ctx):
                 ns = [(o, l, pp, 0, v) for (o, l, pp, cc, v) in lib.long_desc(n, p, (0,), step)]
                 yield {"seqs": [S(ns, [("ts", 0, 3, 4), ("ks", step * n // 2, "Gb"), ("ts", step * n, 7, 8)])]}
                 yield {"seqs": [S(ns[0::2], [("ks", 0, "A")]), S(ns[1::2], [("ts", step * 3, 5, 4)]), S([], [("ts", step * n - 1, 2, 2)])]}
+        return
+    if kind == "scale":
+        # scale ladder: 33 ... 1025 notes under one pedal note held from start to end; no time signature at tick 0 (the
+        # loader supplies 4/4 in front of a long meta sequence); voices inserted one after the other / interleaved
+        p = ctx["p"] if ctx["p"] <= 100 else 100
+        n = lib.LADDER[i]
+        ns = [(o, l, pp, 0, v) for (o, l, pp, cc, v) in lib.long_desc(n, p, (0,), 5)]
+        pedal = [(1, 5 * n + 20, p + 7, 0, 55)]
+        yield {"seqs": [S(ns + pedal, [("ts", 96, 3, 4), ("ks", 5 * n // 2, "Gb")])], "orders": ["sane"]}
+        if n <= 257:
+            for order in ("voices", "halves", "stride7", "stride31", "reverse"):
+                yield {"seqs": [S(ns, [("ts", 96, 3, 4)]), S(ns[1::2] + pedal, [])], "orders": [order, order]}
+        yield {"seqs": [S(ns[0::2], [("ks", 0, "A")]), S(ns[1::2] + pedal, [("ts", 15, 5, 4)]), S([], [("ts", 5 * n - 1, 2, 2)])]}
         return
     if kind == "ticks":
         # thorough: a time signature at tick i and a key signature / second time signature at EVERY lattice tick
@@ -186,8 +201,12 @@ def check_case(case, ctx):
         objs = [obj]
     else:
         seqs = case["seqs"]
-        objs = [lib.seq_abs(s["notes"], s["events"]) if k % 2 == 0 else lib.seq_rel(s["notes"], s["events"])
+        orders = case.get("orders")
+        objs = [lib.seq_abs(s["notes"], s["events"], order=orders[k]) if orders else
+                lib.seq_abs(s["notes"], s["events"]) if k % 2 == 0 else lib.seq_rel(s["notes"], s["events"])
                 for k, s in enumerate(seqs)]
+        if sum(len(s["notes"]) for s in seqs) >= 33:
+            R.flags.append("scale_ladder")
     path = os.path.join(ctx["tmpdir"], f"{os.getpid()}.mid")
     all_sig = [tuple(e) for s in seqs for e in s["events"] if e[0] in ("ts", "ks")]
     ticks = sorted({0} | {e[1] for e in all_sig} | {x for s in seqs for n in s["notes"] for x in (n[0], n[0] + n[1])})
@@ -240,13 +259,16 @@ def check_case(case, ctx):
             if got != want or orph or retr or uncl:
                 R.bad("notes_differ_after_round_trip", f"sequence {k} {view}: got (pitch,onset,len,vel) {got} expected {want}; "
                                                        f"orphans {orph} unclosed {uncl}")
-    ev = lib.view_abs(loaded[0])[0]
-    got_sig = [("ts", e[0], e[5], e[6]) for e in ev if e[1] == "time_signature"] + \
-              [("ks", e[0], e[7]) for e in ev if e[1] == "key_signature"]
-    want_f, got_f = in_force(all_sig, ticks), in_force(got_sig, ticks, default_ts=None)
-    if want_f != got_f:
-        bad = [(t, want_f[t], got_f[t]) for t in ticks if want_f[t] != got_f[t]][:3]
-        R.bad("signature_in_force_differs", f"(tick, saved, loaded): {bad}; meta events {got_sig}")
+    o0 = lib.obs(loaded[0])
+    want_f = in_force(all_sig, ticks)
+    for view in ("abs", "rel"):
+        ev = o0[view][0]
+        got_sig = [("ts", e[0], e[5], e[6]) for e in ev if e[1] == "time_signature"] + \
+                  [("ks", e[0], e[7]) for e in ev if e[1] == "key_signature"]
+        got_f = in_force(got_sig, ticks, default_ts=None)
+        if want_f != got_f:
+            bad = [(t, want_f[t], got_f[t]) for t in ticks if want_f[t] != got_f[t]][:3]
+            R.bad("signature_in_force_differs", f"{view} view (tick, saved, loaded): {bad}; meta events {got_sig}")
     for k, l in enumerate(loaded[1:], 1):
         if any(e[1] in ("time_signature", "key_signature") for e in lib.view_abs(l)[0]):
             R.bad("signature_on_non_meta_sequence", f"sequence {k}")
